@@ -335,6 +335,39 @@ func checkHPKE(t *rapid.T, c *hpkeCase, pt, info []byte) int {
 			t.Fatalf("%s\nnil and empty context info not interchangeable: %s, %v", desc(), fullHex(got), err)
 		}
 	}
+	// one context-info buffer reused for another context on the same objects: "any change to the
+	// context info yields an error" and the interoperability clauses speak about the bytes, not the
+	// slice (added after seeded change C06g, a memo keyed by the caller's context-info slice)
+	if len(info) > 0 {
+		buf := bytes.Clone(info)
+		for i := range buf {
+			buf[i] ^= 0x11 // a context info these objects have not seen yet
+		}
+		first := bytes.Clone(buf)
+		ctA, err := c.enc.Encrypt(pt, buf)
+		if err != nil {
+			t.Fatalf("%s\nEncrypt failed: %v", desc(), err)
+		}
+		if got, err := c.dec.Decrypt(ctA, buf); err != nil || !bytes.Equal(got, pt) {
+			t.Fatalf("%s\nDecrypt(Encrypt(pt)) = %s, %v", desc(), fullHex(got), err)
+		}
+		for i := range buf {
+			buf[i] ^= 0x3c
+		}
+		if got, err := c.dec.Decrypt(ctA, buf); err == nil {
+			t.Fatalf("%s\na ciphertext made under context info %x decrypts (to %s) under context info %x after the caller overwrote its context-info buffer in place", desc(), first, fullHex(got), buf)
+		}
+		ctB, err := c.enc.Encrypt(pt, buf)
+		if err != nil {
+			t.Fatalf("%s\nEncrypt failed: %v", desc(), err)
+		}
+		if got, err := hpkeref.Open(c.suite, c.sk, bytes.Clone(buf), ctB[plen:]); err != nil || !bytes.Equal(got, pt) {
+			t.Fatalf("%s\nthe RFC 9180 reference cannot open, under context info %x, a ciphertext Tink made with that context info in a buffer that held %x at the previous call: %v", desc(), buf, first, err)
+		}
+		if got, err := c.dec.Decrypt(ctB, buf); err != nil || !bytes.Equal(got, pt) {
+			t.Fatalf("%s\nTink does not decrypt, under context info %x, its own ciphertext for it (buffer held %x at the previous call): %v", desc(), buf, first, err)
+		}
+	}
 	// Tink -> independent implementations
 	raw := ct[plen:]
 	if got, err := stdhpke.Open(c.stdPriv, c.stdKDF, c.stdAEAD, info, raw); err != nil || !bytes.Equal(got, pt) {
